@@ -81,3 +81,28 @@ def run(ctx, res):
         with open(os.path.join(sc.dir, sc.archive), "wb") as f:
             f.write(pre)
         E.run_step(ctx, res, "noop_add", sc, "add", False, [], pre, {"noop_identity", "geometry"}, {"flavour": fl, "pre_image": origin}, tool_made=False)
+    # side counts: emulator images hold 1, 2 or 4 sides, SDDrive images 4; anything else is refused, whatever it contains
+    st = res.stream("side_counts", exhaustive=True)
+    side = D.raw_of_sides([D.blank_formatted_side()], "fd")
+    side_sd = D.raw_of_sides([D.blank_formatted_side()], "sd")
+    for fl, one in (("fd", side), ("sd", side_sd)):
+        for k in range(0, 7):
+            for extra in (0, 1, len(one) // 2):
+                raw = one * k + one[:extra]
+                if len(raw) == 0:
+                    continue
+                sc = K.Scenario(ctx, fl)
+                with open(os.path.join(sc.dir, sc.archive), "wb") as f:
+                    f.write(raw)
+                status, out = sc.run("-t", False)
+                mo = D.parse_disk_outcome(drv([D.model_list(sc.blobs, fl, False, raw)])[0])
+                case = {"flavour": fl, "whole_sides": k, "extra_bytes": extra}
+                st.see(case)
+                st.compared += 1
+                if mo is not None and (status, out if status == "ok0" else "") != (mo["status"], mo["out"] if mo["status"] == "ok0" else ""):
+                    res.disagree(st.name, case, mo["status"], status)
+                n = min(k, 4)
+                valid = (n in (1, 2, 4) if fl == "fd" else n == 4) and not (n < 4 and extra > 0)
+                if valid != (status == "ok0"):
+                    res.violate(st.name, "an image with a side count the format does not allow is accepted (or an allowed one refused)", case,
+                                {"status": status}, {"clause": "side_count"})
